@@ -160,6 +160,8 @@ def main(tier):
     run_spec(rep, C11Spec(tier), "closure", time_cap=120 if tier == "quick" else 3000)
     sizes_roundtrip(rep)
     same_tick_updates(rep)
+    from .c18 import format_pairs
+    format_pairs(rep)  # 'documents of different pairs never affect one another': all ordered pairs of a format alphabet on one pid
     rep.assumptions += ["alphabet: pids 'ab'/'a', formats omitted/explicit default/'c'/'bc' (('ab','c') and ('a','bc') "
                         "concatenate alike), documents v1 (5 bytes) / v2 (3 buffers + 7 bytes)",
                         "de-duplication ignores empty directories in this check"]
